@@ -21,7 +21,38 @@ def statEntries (name : String) (f : List Float → Float) : List (String × (Li
   [("IterStatistics::" ++ name, stat1 f), ("IterStatistics::" ++ name ++ "@vec", stat1 f),
    ("IterStatistics::" ++ name ++ "@iter", stat1 f)]
 
+/-- first `n` outputs of a generator (stateful `next` threaded through) -/
+def iterN {σ : Type} (next : σ → Option Float × σ) : σ → Nat → List Float
+  | _, 0 => []
+  | s, n + 1 =>
+    match next s with
+    | (some x, s') => x :: iterN next s' n
+    | (none, _) => []
+
+def genTable : List (String × (List Arg → String)) := [
+  ("gen::periodic", fun a => match a with
+    | [Arg.f sr, Arg.f fr, Arg.f amp, Arg.f ph, Arg.i d, Arg.i n] =>
+      reply (iterN (InfinitePeriodic.next (α := Float)) (InfinitePeriodic.new (α := Float) sr fr amp ph d) n.toNat)
+    | _ => "bad-args"),
+  ("gen::sinusoidal", fun a => match a with
+    | [Arg.f sr, Arg.f fr, Arg.f amp, Arg.f mean, Arg.f ph, Arg.i d, Arg.i n] =>
+      reply (iterN (InfiniteSinusoidal.next (α := Float)) (InfiniteSinusoidal.new (α := Float) sr fr amp mean ph d) n.toNat)
+    | _ => "bad-args"),
+  ("gen::square", fun a => match a with
+    | [Arg.i hd, Arg.i ld, Arg.f hv, Arg.f lv, Arg.i d, Arg.i n] =>
+      reply (iterN (InfiniteSquare.next (α := Float)) (InfiniteSquare.new (α := Float) hd ld hv lv d) n.toNat)
+    | _ => "bad-args"),
+  ("gen::triangle", fun a => match a with
+    | [Arg.i rd, Arg.i fd, Arg.f hv, Arg.f lv, Arg.i d, Arg.i n] =>
+      reply (iterN (InfiniteTriangle.next (α := Float)) (InfiniteTriangle.new (α := Float) rd fd hv lv d) n.toNat)
+    | _ => "bad-args"),
+  ("gen::sawtooth", fun a => match a with
+    | [Arg.i per, Arg.f hv, Arg.f lv, Arg.i d, Arg.i n] =>
+      reply (iterN (InfiniteSawtooth.next (α := Float)) (InfiniteSawtooth.new (α := Float) per hv lv d) n.toNat)
+    | _ => "bad-args")]
+
 def table : List (String × (List Arg → String)) :=
+  genTable ++
   statEntries "min" (IterStatistics.min (α := Float)) ++
   statEntries "max" (IterStatistics.max (α := Float)) ++
   statEntries "abs_min" (IterStatistics.abs_min (α := Float)) ++
